@@ -48,6 +48,8 @@ type ProcSpec struct {
 	JoinMod    string           `json:"joinmod,omitempty"` // kind "joiner": extra modifier (basename, %.txt)
 	JoinSep2   string           `json:"joinsep2,omitempty"` // kind "joiner": separator of a second joined in-port y
 	CmdSuffix  string           `json:"cmdsuffix,omitempty"`
+	ParamsNotInCmd bool         `json:"params_not_in_cmd,omitempty"` // parameter ports are created with InParam(), used in SetOut only
+	DirOut     bool             `json:"dirout,omitempty"`            // the out-port "out" is a DIRECTORY holding two files
 }
 
 type Edge struct {
@@ -89,6 +91,15 @@ func (w *WSpec) SourceFiles() []string {
 		}
 	}
 	return r
+}
+
+func has(list []string, x string) bool {
+	for _, y := range list {
+		if x == y {
+			return true
+		}
+	}
+	return false
 }
 
 // ---------------------------------------------------------------- content function
@@ -167,6 +178,9 @@ type built struct {
 // cmdPattern of a "cmd" process:  vcmd NAME o=<{o:o}>... -- i=<{i:i}>... -- p=<{p:p}>...
 func cmdPattern(p *ProcSpec) string {
 	parts := []string{"vcmd", p.Name}
+	if p.DirOut {
+		parts[0] = "vdir"
+	}
 	for _, o := range p.Outs {
 		ph := "{o:" + o.Name + "}"
 		if o.Stream {
@@ -202,8 +216,10 @@ func funcPattern(p *ProcSpec) string {
 		}
 		parts = append(parts, ph+"}")
 	}
-	for _, q := range p.Params {
-		parts = append(parts, "{p:"+q+"}")
+	if !p.ParamsNotInCmd {
+		for _, q := range p.Params {
+			parts = append(parts, "{p:"+q+"}")
+		}
 	}
 	return strings.Join(parts, " ") + p.CmdSuffix
 }
@@ -301,6 +317,21 @@ func (w *WSpec) run(b *built) {
 		return
 	}
 	switch w.RunToHow {
+	case "regex-ci":
+		// targets given case-insensitively with an inline flag, followed by case-SENSITIVE decoy
+		// patterns that match no process: the patterns are independent of each other
+		pats := []string{}
+		for _, n := range w.RunTo {
+			pats = append(pats, "(?i)^"+strings.ToUpper(n)+"$")
+		}
+		for _, ps := range w.Procs {
+			if !has(w.RunTo, ps.Name) {
+				pats = append(pats, "^"+strings.ToUpper(ps.Name)+"$")
+			}
+		}
+		b.wf.RunToRegex(pats...)
+	case "regex-empty":
+		b.wf.RunToRegex()
 	case "regex":
 		pats := []string{}
 		for _, n := range w.RunTo {
@@ -381,6 +412,7 @@ type Ref struct {
 	Emit    map[string][]string // "proc.port" -> emitted paths in order (single-upstream chains only)
 	Ran     map[string]bool     // processes that run (RunTo closure)
 	OrderOK map[string]bool     // "proc.port" has a deterministic emission order
+	DirOuts map[string][]string // output paths that are directories -> the files they hold
 }
 
 func expandPattern(pat string, proc string, ins map[string]string, params map[string]string) string {
@@ -422,7 +454,7 @@ func (w *WSpec) reference() *Ref { return w.referencePre(nil) }
 // referencePre: reference evaluation with pre-existing files (path -> content). A task one
 // of whose outputs pre-exists is not executed; pre-existing bytes propagate downstream.
 func (w *WSpec) referencePre(pre map[string]string) *Ref {
-	r := &Ref{ByKey: map[string]*RefTask{}, Files: map[string]string{}, Emit: map[string][]string{}, Ran: map[string]bool{}, OrderOK: map[string]bool{}}
+	r := &Ref{ByKey: map[string]*RefTask{}, Files: map[string]string{}, Emit: map[string][]string{}, Ran: map[string]bool{}, OrderOK: map[string]bool{}, DirOuts: map[string][]string{}}
 	if len(w.RunTo) > 0 {
 		r.Ran = w.upstreamClosure(w.RunTo)
 	} else {
@@ -570,6 +602,9 @@ func (w *WSpec) referencePre(pre map[string]string) *Ref {
 						path := inStream[port][k]
 						t.Ins[port] = path
 						inContent[port] = r.Files[path]
+						if parts, ok := r.DirOuts[path]; ok {
+							inContent[port] = r.Files[parts[0]] + "+" + r.Files[parts[1]]
+						}
 						if pk, ok := producer[path]; ok {
 							t.Deps = append(t.Deps, pk)
 						}
@@ -581,7 +616,11 @@ func (w *WSpec) referencePre(pre map[string]string) *Ref {
 					for _, o := range p.Outs {
 						path := normPath(expandPattern(o.Pattern, p.Name, t.Ins, t.Params))
 						t.Outs[o.Name] = path
-						if !o.Stream {
+						if !o.Stream && p.DirOut {
+							r.Files[path+"/part1"] = contentOf(p.Name, o.Name+"/part1", inContent, t.Params)
+							r.Files[path+"/part2"] = contentOf(p.Name, o.Name+"/part2", inContent, t.Params)
+							r.DirOuts[path] = []string{path + "/part1", path + "/part2"}
+						} else if !o.Stream {
 							r.Files[path] = contentOf(p.Name, o.Name, inContent, t.Params)
 						}
 						if c, ok := pre[path]; ok {
